@@ -92,4 +92,16 @@ CHECKS = {
         "text": "Every document/configuration is taken through G1=W(D), G1'=W(D), G2=W(L(G1)), G3, G4: G1 == G1', G2 == G3 == G4, G1 well-formed with every element in the XTCE namespace, canon(D) unchanged by writing; a sample is re-serialized in two subprocesses with different hash seeds. Distinct serializations (states), write/load steps (transitions) and completed cycles (traces) are measured.",
         "note": "Fixed header date in every document; the stock lxml parser defines well-formedness.",
     },
+    "C16": {
+        "level": "model_checking",
+        "technique": "exhaustive enumeration of lexical renderings (namespace convention x comment position x whitespace) and of load histories (all operation sequences up to a bound + breadth-first closure over the real class-level namespace state), each load compared with the canonical form obtained in a fresh interpreter",
+        "text": "Every rendering of the base documents (five namespace conventions, a comment at every inter-element position, whitespace variants) must load to the same definition; every history of loads (successful, wrong-prefix, malformed) up to the bound, and every reachable class-level (nsmap, prefix) state, followed by every target load, must give the definition a fresh interpreter gives. Reachable class states (complete), loads (transitions) and histories (traces) are measured; a package footprint monitor checks that no other shared state exists.",
+        "note": "Baselines are computed in separate fresh processes; namespace map/prefix are the spelling, not the definition.",
+    },
+    "C17": {
+        "level": "exploration",
+        "technique": "exhaustive single-point corruption enumeration (fault-style) of generated documents plus an independent object-graph audit of every loaded definition",
+        "text": "Every dangling reference, duplicate (verbatim and changed), deletion and container cycle that can be introduced at a single point of each core document is loaded under a time guard: broken documents must raise, harmless ones must load into a graph where every name denotes one object, every reference is that object (identity) and inheritor lists equal the base relation; the audit also runs on thousands of generated and all bundled documents.",
+        "note": "References from criteria and length specifications are outside the claim; a verbatim duplicate container may be rejected or tolerated.",
+    },
 }
